@@ -165,3 +165,6 @@ func baseConfig(conn *fakeConn) *dht.ServerConfig {
 		QueryResendDelay: func() time.Duration { return 30 * time.Millisecond },
 	}
 }
+
+// Every injected datagram has been taken off the queue by the serve loop.
+func (c *fakeConn) drained() bool { return len(c.in) == 0 }
